@@ -23,16 +23,18 @@ out = ["# Seeded changes", "",
 for r in rows:
     out.append("| " + " | ".join(r) + " |")
 n = len(rows)
-own = cross = neut = 0
+own = cross = neut = unc = 0
 for d in sorted(glob.glob(os.path.join(ROOT, "seeded", "*", "meta.json"))):
     m = json.load(open(d))
     if "neutralised_by_fix" in m:
         neut += 1
     elif m.get("checks_run", {}).get(m.get("property")) == "caught":
         own += 1
+    elif m.get("history", "").startswith("not caught by any check"):
+        unc += 1
     else:
         cross += 1
-out += ["", "%d changes kept: %d caught by the quick check of their own property, %d by the check of a sibling property (see `caught by`), %d caught and later neutralised by a fix in /repo (see meta.json)." % (n, own, cross, neut),
+out += ["", "%d changes kept: %d caught by the quick check of their own property, %d by the check of a sibling property (see `caught by`), %d caught and later neutralised by a fix in /repo (see meta.json), %d not caught by any check (see `history`)." % (n, own, cross, neut, unc),
         "Behaviour-preserving refactorings used as a false-alarm test are under `neutral/`.", ""]
 open(os.path.join(ROOT, "seeded", "README.md"), "w").write("\n".join(out))
-print("seeded/README.md:", n, "changes,", own, "own,", cross, "sibling,", neut, "neutralised")
+print("seeded/README.md:", n, "changes,", own, "own,", cross, "sibling,", neut, "neutralised,", unc, "uncaught")
